@@ -757,6 +757,13 @@ class Gaussian(Funsor, metaclass=GaussianMeta):
         if not affine:
             return reflect.interpret(Subs, self, remaining_subs)
 
+        # Substituting the remaining pairs into the result afterwards would
+        # capture variables introduced by the affine values; stay lazy then.
+        remaining_names = frozenset(k for k, v in remaining_subs)
+        if any(remaining_names.intersection(v.inputs) for k, v in subs if k in affine):
+            affine_subs = tuple((k, v) for k, v in subs if k in affine)
+            return reflect.interpret(Subs, self, affine_subs + remaining_subs)
+
         # Align integer dimensions.
         old_int_inputs = OrderedDict(
             (k, v) for k, v in self.inputs.items() if v.dtype != "real"
